@@ -176,3 +176,30 @@ theorem codeSort_refines_aux (lt : α → α → Bool) (comb) (pick) (cfg : Cfg)
           simp [extSort, afterBlockSorter_eq, hpl, hfin, hmr.1]
 
 end KV.Sort
+
+namespace KV.Sort
+variable {α : Type}
+
+/-- the traced loop is the loop -/
+theorem codeMergeLoopT_eq (lt : α → α → Bool) (comb) (pick) (cfg : Cfg) (lazyMem : Nat) :
+    ∀ (fuel : Nat) (runs : List (List α)) (n : Nat) (hist : List (List Nat)),
+      (codeMergeLoopT lt comb pick cfg lazyMem fuel runs n hist).map (fun x => (x.1, x.2.1)) =
+        codeMergeLoop lt comb pick cfg lazyMem fuel runs n := by
+  intro fuel
+  induction fuel with
+  | zero =>
+    intro runs n hist
+    unfold codeMergeLoopT codeMergeLoop
+    simp only
+    split <;> rfl
+  | succ fuel ih =>
+    intro runs n hist
+    unfold codeMergeLoopT codeMergeLoop
+    simp only
+    split
+    · rfl
+    · split
+      · rfl
+      · exact ih _ _ _
+
+end KV.Sort
